@@ -380,6 +380,14 @@ impl<'a> JsonTokenizer<'a> {
     }
 }
 
+fn read_hex4(chars: &mut std::iter::Peekable<std::str::Chars<'_>>) -> Result<u32> {
+    let hex: String = chars.by_ref().take(4).collect();
+    if hex.len() != 4 || !hex.bytes().all(|b| b.is_ascii_hexdigit()) {
+        bail!("invalid unicode escape: \\u{}", hex);
+    }
+    u32::from_str_radix(&hex, 16).wrap_err_with(|| format!("invalid unicode escape: \\u{}", hex))
+}
+
 pub fn unescape_string(s: &str) -> Result<String> {
     let mut result = String::with_capacity(s.len());
     let mut chars = s.chars().peekable();
@@ -396,13 +404,21 @@ pub fn unescape_string(s: &str) -> Result<String> {
                 Some('b') => result.push('\x08'),
                 Some('f') => result.push('\x0C'),
                 Some('u') => {
-                    let hex: String = chars.by_ref().take(4).collect();
-                    if hex.len() != 4 {
-                        bail!("invalid unicode escape: incomplete sequence");
-                    }
-                    let cp = u32::from_str_radix(&hex, 16)
-                        .wrap_err_with(|| format!("invalid unicode escape: \\u{}", hex))?;
-                    if let Some(ch) = char::from_u32(cp) {
+                    let cp = read_hex4(&mut chars)?;
+                    if (0xD800..0xDC00).contains(&cp) {
+                        if chars.next() != Some('\\') || chars.next() != Some('u') {
+                            bail!("invalid unicode escape: unpaired high surrogate U+{:04X}", cp);
+                        }
+                        let lo = read_hex4(&mut chars)?;
+                        if !(0xDC00..0xE000).contains(&lo) {
+                            bail!("invalid unicode escape: U+{:04X} is not a low surrogate", lo);
+                        }
+                        let full = 0x10000 + ((cp - 0xD800) << 10) + (lo - 0xDC00);
+                        match char::from_u32(full) {
+                            Some(ch) => result.push(ch),
+                            None => bail!("invalid unicode codepoint: U+{:04X}", full),
+                        }
+                    } else if let Some(ch) = char::from_u32(cp) {
                         result.push(ch);
                     } else {
                         bail!("invalid unicode codepoint: U+{:04X}", cp);
